@@ -72,6 +72,10 @@ def cases(rng, tier):
         a = gen.TA(fin, rules)
         b = gen.rand_ta(rng, 3, 6, sigma=gen.SIGMA) if rng.random() < 0.5 else gen.TA([n], rules)
         cs.append(("laws %s %s %d %d" % (a.fmt(), b.fmt(), rng.randrange(1 << 30), 400), "generated_trim_share"))
+    # pairs on which upward inclusion with a simulation must prune by the preorder in the right direction (gen.sim_prune_pair)
+    for i in range(60 if tier == "quick" else 1000):
+        a, b = gen.sim_prune_pair(rng)
+        cs.append(("inv %s %s %d %d %d" % (a.fmt(), b.fmt(), rng.randrange(1 << 30), 1000, 2), "invariance_sim_prune"))
     # invariance stream: small cyclic pairs (split pairs: deciding them needs unions of copies under cyclic sub-goals) with several twins each;
     # only the 8 selections are asked, all answers of a case must coincide
     for i in range(1500 if tier == "quick" else 20000):
